@@ -586,6 +586,7 @@ func runSort(c *core.Ctx) {
 			continue
 		}
 		var helperCall *ssa.Call
+		helperField := "" // when the helper hands out a record: the field the list travels in
 		var appendsAfter []ssa.Instruction
 		marshalled := false
 		an.Instrs(fn, func(in ssa.Instruction) {
@@ -601,6 +602,29 @@ func runSort(c *core.Ctx) {
 						appendsAfter = append(appendsAfter, x)
 					} else if sc := v.Call.StaticCallee(); sc != nil && core.FuncPkgPath(sc) == c.P.Module {
 						helperCall = v
+					}
+				default:
+					// a field of the record a paging helper of the module handed out (page := tagListPage(…); Tags: page.tags)
+					var rec ssa.Value
+					fidx := -1
+					switch y := an.Strip(x.Val).(type) {
+					case *ssa.Field:
+						rec, fidx = y.X, y.Field
+					case *ssa.UnOp:
+						if fa, ok := y.X.(*ssa.FieldAddr); ok && y.Op == token.MUL {
+							if whole := an.SingleStore(fa.X); whole != nil {
+								rec, fidx = whole, fa.Field
+							}
+						}
+					}
+					if rec != nil {
+						if hc, _ := an.CallOf(an.Origin(rec)); hc != nil {
+							if sc := hc.Call.StaticCallee(); sc != nil && core.FuncPkgPath(sc) == c.P.Module && sc.Signature.Results().Len() == 1 {
+								if stt, ok := sc.Signature.Results().At(0).Type().Underlying().(*types.Struct); ok && fidx < stt.NumFields() {
+									helperCall, helperField = hc, stt.Field(fidx).Name()
+								}
+							}
+						}
 					}
 				}
 			case *ssa.Call:
@@ -627,30 +651,63 @@ func runSort(c *core.Ctx) {
 				continue
 			}
 			nret++
-			var sorted *ssa.Call
-			an.Calls(h, func(call ssa.CallInstruction) {
-				if cc, ok := call.(*ssa.Call); ok && (an.IsFunc(call, "sort", "Strings") || an.IsFunc(call, "slices", "Sort")) {
-					if an.Origin(cc.Call.Args[0]) == an.Origin(ret.Results[0]) || an.Strip(cc.Call.Args[0]) == an.Strip(ret.Results[0]) {
-						if cc.Block().Dominates(ret.Block()) {
-							sorted = cc
-						}
+			// the list handed out: the result itself, or the field of the returned record; truncations of it are looked
+			// through (they must come after the sort)
+			lists := []ssa.Value{ret.Results[0]}
+			if helperField != "" {
+				ss := structStores(an.Origin(ret.Results[0]))
+				if len(ss) == 0 {
+					if u, ok := an.Strip(ret.Results[0]).(*ssa.UnOp); ok {
+						ss = structStores(u.X)
 					}
 				}
-			})
-			if sorted == nil {
-				okHelper = false
-				continue
+				lists = ss[helperField]
+				if len(lists) == 0 {
+					okHelper = false
+					continue
+				}
 			}
-			// no append to the returned slice's variable after the sort
-			an.Instrs(h, func(in ssa.Instruction) {
-				if cl, ok := in.(*ssa.Call); ok {
-					if bi, ok := cl.Call.Value.(*ssa.Builtin); ok && bi.Name() == "append" && cl.Type().String() == ret.Results[0].Type().String() {
-						if an.Reaches(sorted, cl) {
-							okHelper = false
+			for _, lv := range lists {
+				var cuts []*ssa.Slice
+				base := an.Strip(lv)
+				for i := 0; i < 4; i++ {
+					sl, isSl := base.(*ssa.Slice)
+					if !isSl {
+						break
+					}
+					cuts = append(cuts, sl)
+					base = an.Strip(sl.X)
+				}
+				var sorted *ssa.Call
+				an.Calls(h, func(call ssa.CallInstruction) {
+					if cc, ok := call.(*ssa.Call); ok && (an.IsFunc(call, "sort", "Strings") || an.IsFunc(call, "slices", "Sort")) {
+						if an.Origin(cc.Call.Args[0]) == an.Origin(base) || an.Strip(cc.Call.Args[0]) == base {
+							if cc.Block().Dominates(ret.Block()) {
+								sorted = cc
+							}
 						}
 					}
+				})
+				if sorted == nil {
+					okHelper = false
+					continue
 				}
-			})
+				for _, sl := range cuts {
+					if !an.Reaches(sorted, sl) || an.Reaches(sl, sorted) {
+						okHelper = false // cut before the sort: paging would cut an unsorted list
+					}
+				}
+				// no append to the returned slice's variable after the sort
+				an.Instrs(h, func(in ssa.Instruction) {
+					if cl, ok := in.(*ssa.Call); ok {
+						if bi, ok := cl.Call.Value.(*ssa.Builtin); ok && bi.Name() == "append" && cl.Type().String() == base.Type().String() {
+							if an.Reaches(sorted, cl) {
+								okHelper = false
+							}
+						}
+					}
+				})
+			}
 		}
 		n++
 		done[fn] = true
